@@ -1074,6 +1074,12 @@ func (p *Parser) parseBinaryExpression(left Node) (Node, error) {
 		return nil, err
 	}
 
+	// Item access and filters bind tighter than any binary operator
+	right, err = p.parsePostfix(right)
+	if err != nil {
+		return nil, err
+	}
+
 	// Create the current binary node
 	binaryNode := NewBinaryNode(operator, left, right, line)
 
@@ -1137,6 +1143,42 @@ func (p *Parser) parseBinaryExpression(left Node) (Node, error) {
 	}
 
 	return binaryNode, nil
+}
+
+// parsePostfix parses item access and filters following an operand
+func (p *Parser) parsePostfix(expr Node) (Node, error) {
+	for p.tokenIndex < len(p.tokens) &&
+		p.tokens[p.tokenIndex].Type == TOKEN_PUNCTUATION &&
+		(p.tokens[p.tokenIndex].Value == "[" || p.tokens[p.tokenIndex].Value == "|") {
+
+		if p.tokens[p.tokenIndex].Value == "|" {
+			var err error
+			expr, err = p.parseFilters(expr)
+			if err != nil {
+				return nil, err
+			}
+			continue
+		}
+
+		line := p.tokens[p.tokenIndex].Line
+		p.tokenIndex++
+
+		indexExpr, err := p.parseExpression()
+		if err != nil {
+			return nil, err
+		}
+
+		if p.tokenIndex >= len(p.tokens) ||
+			p.tokens[p.tokenIndex].Type != TOKEN_PUNCTUATION ||
+			p.tokens[p.tokenIndex].Value != "]" {
+			return nil, fmt.Errorf("expected closing bracket after array index at line %d", line)
+		}
+		p.tokenIndex++
+
+		expr = NewGetItemNode(expr, indexExpr, line)
+	}
+
+	return expr, nil
 }
 
 // parseEndTag handles closing tags like endif, endfor, endblock, etc.
